@@ -492,6 +492,10 @@ pub fn check_entry(c: &Case, verif: &std::path::Path) -> CaseResult {
                 r.violations.push(Violation::new("C14", format!("on-parse-count:{}:on-ok:{}", k.min(2), entry), format!("{}: parse succeeded, the callback ran {} times", entry, k), c));
             }
         }
+        (Ok(Err(e)), Err(Fail::Rejected(_))) if wmodel::validate214(&c.wasm, if cfg.stable { wmodel::FeatureSet::STABLE } else { wmodel::FeatureSet::DEFAULT }).is_ok() => {
+            // every entry point agrees, but on the wrong answer: the switches leave this module inside the documented feature set
+            r.violations.push(Violation::new("C14", format!("switches-reject-a-module-inside-their-feature-set:{}", if cfg.stable { "only-stable" } else { "default" }), format!("{} with {:?} rejects a module the documented feature set admits: {:#}", entry, cfg, e), c));
+        }
         (Ok(Err(_)), Err(Fail::Rejected(_))) => {
             if k != 0 {
                 r.violations.push(Violation::new("C14", format!("on-parse-count:1:on-err:{}", entry), format!("{}: parse failed, the callback ran", entry), c));
@@ -506,7 +510,11 @@ pub fn check_entry(c: &Case, verif: &std::path::Path) -> CaseResult {
 }
 
 pub fn entry_cases() -> Vec<Case> {
-    let inputs = [("all", build_input(true, 1, true)), ("two-memories", {
+    let finished = wgen::stateful::assemble(r#"(module (memory 1) (table 1 funcref) (type $t (func (result i32))) (func $a (type $t) (i32.const 1)) (elem (i32.const 0) func $a)
+        (func (export "f") (param v128 v128 v128 i64) (result v128) (drop (i32.extend8_s (i32.trunc_sat_f32_s (f32.const 1)))) (memory.fill (i32.const 0) (i32.const 0) (i32.const 1))
+          (drop (ref.is_null (ref.func $a))) (f32x4.relaxed_madd (local.get 0) (local.get 1) (local.get 2)))
+        (func (export "g") (type $t) (return_call $a)) (func (export "h") (result i32 i32) (i32.const 1) (i32.const 2)))"#).unwrap();
+    let inputs = [("finished-proposals", finished), ("all", build_input(true, 1, true)), ("two-memories", {
         let mut m = names_base(0);
         m.customs.push((12, "producers".into(), mb::producers(producers_variants()[1].1.as_ref().unwrap())));
         m.build()
